@@ -23,6 +23,7 @@
 from vlib.pipeline import Case
 from vlib import gen
 from props import factor_common as fc
+from props import sched_trace as strace
 
 PID = "C05"
 GEN = ["primality", "sched"]
@@ -31,7 +32,10 @@ AUDIT = "Ymq.Audit.C05"
 THEOREMS = ['Ymq.C05.abort_never_wrong_product', 'Ymq.C05.abort_consistent', 'Ymq.C05.abort_consistent_of_input', 'Ymq.C05.abort_stops', 'Ymq.C05.abort_bounded', 'Ymq.C05.abort_before_start',
             'Ymq.C04Shape.abort_bounded_shape', 'Ymq.C04Shape.source_shapes_ok', 'Ymq.C04Shape.source_mt_poll_first',
             'Ymq.C04Shape.siqs_mt_abort_bounded', 'Ymq.C04Shape.mpqs_mt_abort_bounded', 'Ymq.C04Shape.siqs_st_abort_bounded', 'Ymq.C04Shape.mpqs_st_abort_bounded',
-            'Ymq.C04Shape.source_ecm_shape_ok', 'Ymq.C04Shape.ecm_abort_bounded', 'Ymq.C04Shape.ecm_unit_length']
+            'Ymq.C04Shape.source_ecm_shape_ok', 'Ymq.C04Shape.ecm_abort_bounded', 'Ymq.C04Shape.ecm_unit_length',
+            'Ymq.C04Shape.qs_abort_bounded', 'Ymq.C04Shape.qs_unit_length', 'Ymq.C04Shape.cg_mt_abort_bounded', 'Ymq.C04Shape.cg_st_abort_bounded',
+            'Ymq.C04Shape.ecm_unit_abort_bounded', 'Ymq.C04Shape.source_named_ok', 'Ymq.C04Shape.source_fork_ok', 'Ymq.C04Shape.source_ecm_unit_ok',
+            'Ymq.C04Shape.abort_unit_bounded', 'Ymq.C04Shape.ecm_unit_abort_faithful']
 PROFILES = ["release", "chk"]
 TIMEOUT = 120.0
 LAT_BOUND_MS = 15000
@@ -41,7 +45,11 @@ RULE = ("boundary family first, in both tiers: flips on inputs of exactly 65, 12
         "selectors auto/qs/mpqs/siqs/ecm/ecm128/pm1, single and multi-threaded, on 60-150 bit inputs whose run is long enough for "
         "the flip to land before/between/inside stages; checked: returns, no crash, product = n, latency after the first `true` poll "
         f"<= {LAT_BOUND_MS} ms; non-trivial = the predicate was polled at least once; distinct by request line")
-MODELLED = ["where siqs() and mpqs() poll the abort predicate inside a work unit is read from the source on every run (translate/sched.py -> "
+MODELLED = ["second generation (same translator): classgroup(), classical QS (a unit = one large block PAIR: two adding arms joined, then the poll) "
+            "and ECM (a unit = one curve, entry test first): qs_abort_bounded / qs_unit_length, cg_mt_abort_bounded / cg_st_abort_bounded, "
+            "ecm_unit_abort_bounded; source_named_ok: wherever a true poll only leaves the unit (generated list leavesLoop) the poll sits before "
+            "any add, so later units run their entry test only; tie: sched_trace (real drivers, every flip instant of small runs) vs sched_model",
+            "where siqs() and mpqs() poll the abort predicate inside a work unit is read from the source on every run (translate/sched.py -> "
             "Ymq/Gen/SchedShape.lean); abort_bounded_shape: the predicate may flip after ANY schedule prefix, from then on at most two work "
             "units' worth of actions per worker happen, however many units are left; source_shapes_ok / source_mt_poll_first are the "
             "obligations on the generated data (a poll outside the polynomial loop of every unit, first in the thread-pool branches)",
@@ -103,6 +111,10 @@ def boundary_cases(rng, tier):
 def cases(tier, rng, extended=False):
     quick = tier == "quick"
     yield from boundary_cases(_fork(rng, "C05-boundary"), tier)
+    # flip instants on classical QS / ECM / class groups called directly (props/sched_trace.py): the run after a flip at poll k is
+    # judged against the undisturbed run (O) and must be reproduced by the Lean model built from the generated shapes (K, followup)
+    yield from strace.cases(_fork(rng, "C05-trace"), tier, ["0", "1", "2", "3", "5", "1000"] if quick else [str(k) for k in range(0, 13)] + ["1000"],
+                            {"qs": [0, 2], "ecm": [0, 3], "cg": [0, 2]}, "trace")
     reps = 3 if quick else 12
     if extended:
         reps *= 4
@@ -192,6 +204,8 @@ _scan = {"runs": 0, "flip_instants": 0}
 
 
 def oracle(case, ans):
+    if case.op == "sched_trace":
+        return strace.oracle(case, ans)
     if case.op == "abort_scan":
         kv = dict(x.split("=", 1) for x in ans.split()) if "=" in ans else {}
         if not kv:
@@ -270,10 +284,15 @@ def finding_key(case, ans, profile):
     return None
 
 
-followup = fc.replay_request
+def followup(case, ans):
+    if case.op == "sched_trace":
+        return strace.model_requests(case, ans)
+    return fc.replay_request(case, ans)
 
 
 def klass(case, ans):
+    if case.op == "sched_trace":
+        return strace.klass(case, ans)
     if case.op == "abort_scan":
         return f"scan/{case.args[1]}/threads={case.args[2]}"
     kind, fs, trace, md = fc.parse_answer(ans)
@@ -286,6 +305,8 @@ def klass(case, ans):
 
 
 def nontrivial(case, ans):
+    if case.op == "sched_trace":
+        return strace.nontrivial(case, ans)
     if case.op == "abort_scan":
         return True
     return fc.parse_answer(ans)[3].get("polls", 0) > 0
